@@ -1025,7 +1025,7 @@ def check(run):
     for i, u in enumerate(pool):
         for v in (u, [-t for t in u], [math.nextafter(t, 2.0) for t in u], [math.nextafter(t, -2.0) for t in u], pool[(i * 7 + 3) % len(pool)], pool[(i * 13 + 5) % len(pool)]):
             uvpairs.append(fmt("UV", "", u, v))
-    hgroups = [HGroup(r) for _ in range(180 if quick else 6000)]
+    hgroups = [HGroup(r) for _ in range(150 if quick else 6000)]
     cons = gen_consumers(r, 100 if quick else 4000)
     hills = gen_hills(r, 45 if quick else 2000)
     sgroups = [SGroup(r, (pos, how)) for pos in range(3) for how in range(4)] + [SGroup(r) for _ in range(110 if quick else 5000)] + [SGroup(r, modify=True) for _ in range(50 if quick else 1500)]
